@@ -4,10 +4,62 @@
 //! requests (answered by the real reader through `c_line`)
 //!   lskel fresh <bs> <hex d> <fo>            fresh reader, one find_line -> done | found <next> <parts>
 //!   lskel hist <bs> <hex d> <f<fo>|d<fo>>…   one reader, finds and drops; one item per op joined by ';'
+//!   lskel freshib <bs> <hex d> <fo>          fresh reader, one find_line_in_block -> done | found <next> <parts> | partial <parts>
+//!   lskel hist2 <bs> <hex d> <f<fo>|i<fo>|d<fo>>…  one reader; `i` = find_line_in_block
+//!                                            (found <next> <beg> <end> | partial <parts> | done), `d` = drop_line
 use crate::util::*;
+use s4lib::common::ResultS3;
+use s4lib::readers::linereader::LineReader;
 use std::io::Write;
 
+fn hist2(bs: u64, d: &[u8], ops: &[String]) -> String {
+    let f = crate::c_line::write_tmp(d, ".log");
+    let p = f.path().to_str().unwrap().to_string();
+    let ops = ops.to_vec();
+    let r = guarded(move || {
+        let mut lr = match LineReader::new(p, crate::c_line::FT_TEXT, bs) {
+            Ok(v) => v,
+            Err(e) => return format!("err-new {}", e.kind()),
+        };
+        let mut out: Vec<String> = vec![];
+        for op in ops.iter() {
+            let kind = &op[..1];
+            let fo: u64 = op[1..].parse().unwrap();
+            match kind {
+                "f" => match lr.find_line(fo) {
+                    ResultS3::Found((next, l)) => out.push(format!("found {} {} {}", next, l.fileoffset_begin(), l.fileoffset_end())),
+                    ResultS3::Done => out.push("done".to_string()),
+                    ResultS3::Err(e) => out.push(format!("err {}", e.kind())),
+                },
+                "i" => match lr.find_line_in_block(fo) {
+                    (ResultS3::Found((next, l)), _) => out.push(format!("found {} {} {}", next, l.fileoffset_begin(), l.fileoffset_end())),
+                    (ResultS3::Done, Some(line)) => {
+                        let ps = line.verif_parts().iter().map(|(bo, b, e)| format!("{}:{}:{}", bo, b, e)).collect::<Vec<_>>().join(",");
+                        out.push(format!("partial {}", ps));
+                    }
+                    (ResultS3::Done, None) => out.push("done".to_string()),
+                    (ResultS3::Err(e), _) => out.push(format!("err {}", e.kind())),
+                },
+                "d" => {
+                    // drop the stored line containing fo, if any (the real `LineReader::drop_line`)
+                    if let Some(lp) = lr.get_linep(&fo) { lr.drop_line(lp); }
+                    out.push("drop".to_string());
+                }
+                _ => out.push("bad-op".to_string()),
+            }
+        }
+        out.join(";")
+    });
+    drop(f);
+    match r { Ok(s) => s, Err(m) => format!("panic {}", m) }
+}
+
 pub fn replay_line(req: &str) -> String {
+    let w: Vec<&str> = req.split_whitespace().collect();
+    if w.len() >= 4 && w[0] == "lskel" && w[1] == "hist2" {
+        let ops: Vec<String> = w[4..].iter().map(|s| s.to_string()).collect();
+        return hist2(w[2].parse().unwrap(), &unhex(w[3]), &ops);
+    }
     match req.strip_prefix("lskel ") {
         Some(rest) => crate::c_line::replay_line(&format!("line {}", rest)),
         None => "bad-op".to_string(),
@@ -52,6 +104,7 @@ pub fn run(o: &Opts, out: &mut dyn Write) {
             for bs in 1..=(len + 1) {
                 for fo in 0..=len {
                     emit(out, format!("lskel fresh {} {} {}", bs, h, fo));
+                    emit(out, format!("lskel freshib {} {} {}", bs, h, fo));
                 }
             }
             // every pair of finds (the second meets the caches the first left), with and without a drop between
@@ -60,6 +113,9 @@ pub fn run(o: &Opts, out: &mut dyn Write) {
                     for a in 0..len { for b in 0..=len {
                         emit(out, format!("lskel hist {} {} f{} f{}", bs, h, a, b));
                         emit(out, format!("lskel hist {} {} f{} d{} f{} f{}", bs, h, a, a, b, a));
+                        emit(out, format!("lskel hist2 {} {} i{} i{} f{} i{}", bs, h, a, b, a, b));
+                        emit(out, format!("lskel hist2 {} {} f{} i{} d{} i{} i{}", bs, h, a, b, a, b, a));
+                        emit(out, format!("lskel hist2 {} {} i{} d{} f{} d{} i{}", bs, h, a, a, b, b, a));
                     }}
                 }
             }
@@ -101,5 +157,17 @@ pub fn run(o: &Opts, out: &mut dyn Write) {
             }
         }
         emit(out, format!("lskel hist {} {} {}", bs, h, ops.join(" ")));
+        // in-block finds: fresh, and mixed into a history (as block-zero analysis does before the streaming stage)
+        emit(out, format!("lskel freshib {} {} {}", bs, h, rng.below(d.len() + 2)));
+        let mut ops2: Vec<String> = vec![];
+        let n2 = 1 + rng.below(30);
+        let mut at = 0usize;
+        for _ in 0..n2 {
+            let k = match rng.below(8) { 0 | 1 | 2 | 3 => "i", 4 | 5 => "f", _ => "d" };
+            let fo = if rng.chance(1, 2) { at } else { rng.below(d.len() + 2) };
+            ops2.push(format!("{}{}", k, fo));
+            if fo < d.len() { let (_, e) = bounds(&d, fo); at = e + 1; if at >= d.len() { at = 0; } }
+        }
+        emit(out, format!("lskel hist2 {} {} {}", bs, h, ops2.join(" ")));
     }
 }
